@@ -180,7 +180,7 @@ class Obl:
     def __init__(self, name, harness, defines=None, variant="dbg", unwind=None, unwindset=None, flags=None,
                  timeout=300, mem_gb=8, desc="", funcs=None, bounds="", nontrivial=True, sample=None,
                  extra_src=None, gen_src=None, pipeline="cbmc", dfcc=None, leak=False, backend=None,
-                 no_witness=False, drop_base=None, depth=None):
+                 no_witness=False, drop_base=None, depth=None, ptrcheck=True):
         self.name = name
         self.harness = harness
         self.defines = dict(defines or {})
@@ -204,10 +204,11 @@ class Obl:
         self.no_witness = no_witness
         self.drop_base = drop_base or []
         self.depth = depth
+        self.ptrcheck = ptrcheck   # False: functional obligation; memory-safety checks are decided by the safety obligations (C01)
 
     def key(self):
         return hashlib.sha1(json.dumps([self.name, self.harness, sorted(self.defines.items()), self.variant,
-                                        self.unwind, self.unwindset, self.flags, self.gen_src, self.dfcc],
+                                        self.unwind, self.unwindset, self.flags, self.gen_src, self.dfcc, self.ptrcheck],
                                        sort_keys=True, default=str).encode()).hexdigest()[:12]
 
 
@@ -300,6 +301,9 @@ def cbmc_cmd(obl, binary, extra=None):
         cmd += ["--unwindset", ",".join(obl.unwindset)]
     if obl.leak:
         cmd += ["--memory-leak-check"]
+    if not obl.ptrcheck:
+        cmd += ["--no-pointer-check"]
+        cmd = [c for c in cmd if c != "--pointer-overflow-check"]
     if obl.depth:
         cmd += ["--depth", str(obl.depth)]
     if obl.backend == "kissat":
